@@ -128,6 +128,11 @@ func (r *Ref) Apply(ei int) string {
 	res := "ok"
 	switch e.Kind {
 	case EvBlock, EvBlockSL:
+		if e.Kind == EvBlockSL && e.Src == Foreign {
+			// a header link from a source no node knows: the implementation may refuse the whole block; the reference
+			// leaves the block undelivered (histories using this are compared one-directionally only)
+			break
+		}
 		first := !r.Delivered[e.Block]
 		r.Delivered[e.Block] = true
 		newly := r.connect()
